@@ -909,6 +909,7 @@ class Normaliser:
         if self.finl.table:
             v.body = self._hoist_block(v.body, self.finl)
             v.body = self.finl._stmts(v.body, 0)
+        v.body = self._raises_into_handler(v.body)
         for _ in range(3):
             v.body, again = self._fold_flags(v.body, v)
             if not again:
@@ -1009,6 +1010,82 @@ class Normaliser:
                                     ast.fix_missing_locations(n_)
                                 self.expanded_cms.add(call.func.attr)
             out.extend(new if new is not None else [st])
+        return out
+
+    # -- `try: <body that always returns> except _Private as e: x, y = e.a, e.b` followed by `<continuation>`: a `raise _Private(p, q)` in the body (typically
+    #    from an expanded helper) continues in the handler and then in the continuation - put both in the place of the raise
+    def _raises_into_handler(self, stmts):
+        from sa.props._lib_h_d import _clone
+        out = []
+        i = 0
+        while i < len(stmts):
+            st = stmts[i]
+            for field in ("body", "orelse", "finalbody"):
+                if isinstance(getattr(st, field, None), list) and not isinstance(st, (ast.FunctionDef, ast.AsyncFunctionDef, ast.ClassDef)):
+                    setattr(st, field, self._raises_into_handler(getattr(st, field)))
+            done = False
+            if isinstance(st, ast.Try) and len(st.handlers) == 1 and not st.orelse and not st.finalbody and isinstance(st.handlers[0].type, ast.Name) \
+                    and st.handlers[0].type.id.startswith("_") and st.body and isinstance(st.body[-1], ast.Return):
+                h = st.handlers[0]
+                ecls = next((c for c in self.inl.mod.tree.body if isinstance(c, ast.ClassDef) and c.name == h.type.id), None)
+                init = next((f for f in (ecls.body if ecls else []) if isinstance(f, ast.FunctionDef) and f.name == "__init__"), None)
+                if init is not None:
+                    params = [a.arg for a in init.args.args[1:]]
+                    attr_of = {}
+                    for x in ast.walk(init):
+                        if isinstance(x, ast.Assign) and len(x.targets) == 1 and isinstance(x.targets[0], ast.Attribute) and isinstance(x.targets[0].value, ast.Name) \
+                                and x.targets[0].value.id == init.args.args[0].arg and isinstance(x.value, ast.Name) and x.value.id in params:
+                            attr_of[x.targets[0].attr] = params.index(x.value.id)
+                    cont = stmts[i + 1:]
+                    raises = [x for b_ in st.body for x in ast.walk(b_) if isinstance(x, ast.Raise)]
+                    mine = [x for x in raises if isinstance(x.exc, ast.Call) and isinstance(x.exc.func, ast.Name) and x.exc.func.id == h.type.id
+                            and len(x.exc.args) == len(params) and not x.exc.keywords]
+                    simple_handler = all(isinstance(b_, ast.Assign) for b_ in h.body)
+                    if mine and len(mine) == len([x for x in raises if x.exc is not None and h.type.id in ast.unparse(x.exc)]) and simple_handler and attr_of:
+                        counter = [0]
+                        outer = self
+
+                        class R(ast.NodeTransformer):
+                            def visit_Raise(self_, node):
+                                if node not in mine:
+                                    return node
+                                counter[0] += 1
+                                k = counter[0]
+                                stored = {t.id for b_ in h.body for t0 in b_.targets for t in ast.walk(t0) if isinstance(t, ast.Name)}
+
+                                class S(ast.NodeTransformer):
+                                    def visit_Attribute(s2, n):
+                                        if h.name and isinstance(n.value, ast.Name) and n.value.id == h.name and n.attr in attr_of:
+                                            return ast.copy_location(_clone(node.exc.args[attr_of[n.attr]]), n)
+                                        return s2.generic_visit(n)
+
+                                    def visit_Name(s2, n):
+                                        if n.id in stored:
+                                            return ast.copy_location(ast.Name(id=f"{n.id}__r{k}", ctx=n.ctx), n)
+                                        return n
+                                new = []
+                                for b_ in h.body:
+                                    b2 = S().visit(_clone(b_))
+                                    if len(b2.targets) == 1 and isinstance(b2.targets[0], (ast.Tuple, ast.List)) and isinstance(b2.value, (ast.Tuple, ast.List)) \
+                                            and len(b2.targets[0].elts) == len(b2.value.elts):
+                                        new += [ast.Assign(targets=[t_], value=v_, lineno=node.lineno) for t_, v_ in zip(b2.targets[0].elts, b2.value.elts)]
+                                    else:
+                                        new.append(b2)
+                                new += [S().visit(_clone(c_)) for c_ in cont]
+                                for n_ in new:
+                                    ast.copy_location(n_, node)
+                                    ast.fix_missing_locations(n_)
+                                return new
+                        body = [R().visit(b_) for b_ in st.body]
+                        flat = []
+                        for b_ in body:
+                            flat.extend(b_ if isinstance(b_, list) else [b_])
+                        out.extend(flat)
+                        i = len(stmts)
+                        done = True
+            if not done:
+                out.append(st)
+                i += 1
         return out
 
     # -- `if a and self._helper(): body` : the helper runs only when `a` holds - nest the tests before the helper is expanded in front of them
@@ -1544,6 +1621,12 @@ def _make_xvm():
                     if all(self.truth(self.eval(c, local, mod, owner)) for c in gen.ifs):
                         out[self.eval(e.key, local, mod, owner)] = self.eval(e.value, local, mod, owner)
                 return out
+            if isinstance(e, ast.Call) and isinstance(e.func, ast.Attribute) and e.func.attr == "__init__" and isinstance(e.func.value, ast.Name) \
+                    and e.func.value.id in ("Exception", "BaseException", "ValueError", "RuntimeError", "TypeError", "KeyError") and e.func.value.id not in env and e.args:
+                obj = self.eval(e.args[0], env, mod, owner)
+                if hasattr(obj, "args"):
+                    obj.args = tuple(self.eval(a, env, mod, owner) for a in e.args[1:])
+                return None
             if isinstance(e, ast.Attribute) and e.attr == "__dict__":
                 from sa.props._lib_h_d import VMObj as _VMObj2
                 v = self.eval(e.value, env, mod, owner)
